@@ -79,7 +79,7 @@ func (m *Message) Equals(toCompare *Message) bool {
 		return false
 	}
 	for key, value := range m.Metadata {
-		if value != toCompare.Metadata[key] {
+		if toCompareValue, ok := toCompare.Metadata[key]; !ok || value != toCompareValue {
 			return false
 		}
 	}
